@@ -17,6 +17,8 @@ CONSTANTS
   TsTypes = {}
   JsonAttr = FALSE
   Emit = FALSE
+  OptIsDynamic = FALSE
+  OptSkipDynamic = FALSE
   Edits = FALSE
   KindS = "all"
   EmitSched = TRUE
